@@ -21,3 +21,91 @@ pub fn disarm_steps() {
 pub fn step_ceiling(len: usize) -> u64 {
     64 * len as u64 + 4096
 }
+
+use refmodel::msg::{Rdata, Rec};
+use refmodel::wire::{Sec, T_A, T_AAAA};
+use std::net::IpAddr;
+
+pub fn section_of(s: Sec) -> Section {
+    match s {
+        Sec::Question => Section::Question,
+        Sec::Answer => Section::Answer,
+        Sec::Authority => Section::NameServers,
+        Sec::Additional => Section::Additional,
+    }
+}
+
+/// Compares the accessors that exist on every typed cursor with the reference record.
+pub fn check_typed<T: DNSIterable + TypedIterable>(it: &T, owner: &[u8], rtype: u16, class: u16, sec: Sec, start: usize, end: usize) -> Result<(), String> {
+    if it.offset() != Some(start) {
+        return Err(format!("offset() = {:?}, reference record starts at {}", it.offset(), start));
+    }
+    if it.offset_next() != end {
+        return Err(format!("offset_next() = {}, reference record ends at {}", it.offset_next(), end));
+    }
+    let name = it.name();
+    let exp = refmodel::msg::dotted_lower(owner);
+    if name != exp {
+        return Err(format!("name() = {:?}, expected {:?}", String::from_utf8_lossy(&name), String::from_utf8_lossy(&exp)));
+    }
+    let mut raw = vec![0xEEu8; 3];
+    let n = it.copy_raw_name(&mut raw);
+    if raw[..3] != [0xEE; 3] || &raw[3..] != owner || n != owner.len() {
+        return Err(format!("copy_raw_name() appended {:?} (returned {}), expected {:?}", &raw[3..], n, owner));
+    }
+    if it.rr_type() != rtype {
+        return Err(format!("rr_type() = {}, expected {}", it.rr_type(), rtype));
+    }
+    if it.rr_class() != class {
+        return Err(format!("rr_class() = {}, expected {}", it.rr_class(), class));
+    }
+    match it.current_section() {
+        Ok(s) if s == section_of(sec) => {}
+        other => return Err(format!("current_section() = {:?}, expected {:?}", other.map_err(|e| e.to_string()), sec)),
+    }
+    Ok(())
+}
+
+/// Compares the rdata accessors with the reference record; `raw_rdata` is the record's data as on the wire.
+pub fn check_rdata<T: DNSIterable + TypedIterable + RdataIterable>(it: &T, rec: &Rec, raw_rdata: &[u8]) -> Result<(), String> {
+    if it.rr_ttl() != rec.ttl {
+        return Err(format!("rr_ttl() = {}, expected {}", it.rr_ttl(), rec.ttl));
+    }
+    if it.rr_rdlen() != raw_rdata.len() {
+        return Err(format!("rr_rdlen() = {}, expected {}", it.rr_rdlen(), raw_rdata.len()));
+    }
+    let ip = it.rr_ip();
+    match (rec.rtype, &rec.rdata) {
+        (T_A, Rdata::Opaque(b)) => match ip {
+            Ok(IpAddr::V4(a)) if a.octets()[..] == b[..] => {}
+            other => return Err(format!("rr_ip() = {:?}, expected {:?}", other.map_err(|e| e.to_string()), b)),
+        },
+        (T_AAAA, Rdata::Opaque(b)) => match ip {
+            Ok(IpAddr::V6(a)) if a.octets()[..] == b[..] => {}
+            other => return Err(format!("rr_ip() = {:?}, expected {:?}", other.map_err(|e| e.to_string()), b)),
+        },
+        _ => {
+            if ip.is_ok() {
+                return Err("rr_ip() succeeded on a record that is neither A nor AAAA".into());
+            }
+        }
+    }
+    match it.rr_rd() {
+        Ok(RawRRData::IpAddr(a)) => {
+            let oct: Vec<u8> = match a {
+                IpAddr::V4(a) => a.octets().to_vec(),
+                IpAddr::V6(a) => a.octets().to_vec(),
+            };
+            if !(rec.rtype == T_A || rec.rtype == T_AAAA) || oct != raw_rdata {
+                return Err(format!("rr_rd() = address {:?}, wire data {:?}", oct, raw_rdata));
+            }
+        }
+        Ok(RawRRData::Data(d)) => {
+            if rec.rtype == T_A || rec.rtype == T_AAAA || d != raw_rdata {
+                return Err(format!("rr_rd() = {:?}, wire data {:?}", d, raw_rdata));
+            }
+        }
+        Err(e) => return Err(format!("rr_rd() failed: {}", e)),
+    }
+    Ok(())
+}
